@@ -23,6 +23,18 @@ PROP_MODULES = {
 }
 
 
+def jsonable(x):
+    if isinstance(x, (bytes, bytearray)):
+        return {"__bytes__": bytes(x).hex()}
+    if isinstance(x, dict):
+        return {str(k): jsonable(v) for k, v in x.items()}
+    if isinstance(x, (list, tuple, set, frozenset)):
+        return [jsonable(v) for v in x]
+    if isinstance(x, (int, float, str, bool)) or x is None:
+        return x if not isinstance(x, int) or isinstance(x, bool) else int(x)
+    return repr(x)
+
+
 def _load_modules(prop):
     sys.path.insert(0, ROOT) if ROOT not in sys.path else None
     for m in PROP_MODULES.get(prop, []):
@@ -74,7 +86,7 @@ def _worker(args):
             finally:
                 core._CTX = None
             rec["trace"] = list(c.trace)
-            rec["obls"] = [o.to_json() for o in c.obls]
+            rec["obls"] = [jsonable(o.to_json()) for o in c.obls]
             rec["solver_secs"] = c.solver_secs
             rec["queries"] = c.n_queries
             rec["covers"] = sorted(c.covers)
